@@ -14,6 +14,7 @@ import (
 	"github.com/smart-core-os/sc-api/go/types"
 
 	"github.com/smart-core-os/sc-golang/internal/minibus"
+	"github.com/smart-core-os/sc-golang/internal/verifhook"
 )
 
 type Collection struct {
@@ -155,6 +156,7 @@ func (c *Collection) Update(id string, msg proto.Message, opts ...WriteOption) (
 		changeType = types.ChangeType_ADD
 		oldValue = nil
 	}
+	verifhook.Yield("coll.update.beforeSend")
 	c.bus.Send(context.TODO(), &CollectionChange{
 		Id:         id,
 		ChangeTime: writeRequest.updateTime(c.clock),
@@ -181,6 +183,7 @@ func (c *Collection) Delete(id string, opts ...WriteOption) (proto.Message, erro
 	c.mu.RUnlock()
 
 	for attempt := 0; attempt < 5; attempt++ {
+		verifhook.Yield("coll.delete.afterRead")
 		if !exists {
 			if !args.allowMissing {
 				return nil, status.Error(codes.NotFound, "not found")
@@ -317,6 +320,7 @@ func (c *Collection) onUpdate(ctx context.Context, config *ReadRequest) (<-chan 
 		res = c.itemSlice(config)
 	}
 
+	verifhook.Yield("coll.onUpdate.beforeListen")
 	ch := c.bus.Listen(ctx)
 	if !config.Backpressure {
 		ch = mergeCollectionExcess(ch)
